@@ -74,7 +74,9 @@ def init_worker(cfg):
     _lib['pred_cache'] = {}
 
 
-EXACTLY_WHEN = {'Borda', 'Borda(bucket_id)', 'PickAPerm', 'BioConsert[Borda]', 'BioConsert[PickAPerm]', 'BioCo',
+EXACTLY_WHEN = {'BioConsert[Exact,Borda]', 'BioConsert[Exact,PickAPerm]', 'BioConsert[ParCons,Borda(bucket_id)]',
+                'BioConsert[Borda,Exact]', 'BioConsert[Copeland,Borda]',
+                'Borda', 'Borda(bucket_id)', 'PickAPerm', 'BioConsert[Borda]', 'BioConsert[PickAPerm]', 'BioCo',
                 'BioConsert[Borda,Copeland]', 'BioConsert[Borda,KwikSort,PickAPerm]', 'BioConsert[BioCo]'}
 
 
